@@ -70,25 +70,35 @@ Definition labels_get (fetch : list fetch_row) (fp : N) : labels :=
   match fingerprints_has fetch fp with None => [] | Some l => sort_labels l end.
 
 (* ---------- ReshuffleSeries ----------
-   key = CityHash64 of "n1=v1 n2=v2 ..." (the model keys by the string itself: the 64-bit hash is
-   taken to be injective on the label strings of one answer). The first series of a key receives the
-   samples of every later series with the same key (appended, then sorted by timestamp); the later
-   series is left out of the returned slice. *)
-Definition label_str (l : labels) : string := join " " (map (fun kv => fst kv ++ "=" ++ snd kv) l).
+   key = labels.Hash() of the series' label list (xxhash over name 0xff value 0xff ..: the separators cannot occur
+   in UTF-8 label text; the model keys by the label list itself: the 64-bit hash is taken to be injective on the
+   label lists of one answer).  Before fix 3acbc45 the key was CityHash64 of the text "n1=v1 n2=v2 ..", which
+   {a="b c=d"} and {a="b", c="d"} share.  The first series of a key receives the samples of every later series
+   with the same key (appended, then sorted by timestamp); the later series is left out of the returned slice. *)
+Fixpoint list_eqb {A} (eq : A -> A -> bool) (a b : list A) : bool :=
+  match a, b with
+  | [], [] => true
+  | x :: r, y :: r' => eq x y && list_eqb eq r r'
+  | _, _ => false
+  end.
+Definition pair_eqb {A B} (ea : A -> A -> bool) (eb : B -> B -> bool) (x y : A * B) : bool :=
+  ea (fst x) (fst y) && eb (snd x) (snd y).
+Definition labels_eqb : labels -> labels -> bool := list_eqb (pair_eqb String.eqb String.eqb).
+Definition label_str (l : labels) : string := join " " (map (fun kv => fst kv ++ "=" ++ snd kv) l).   (* the former key *)
 Definition sort_samples (l : list sample) : list sample := isort (fun a b => Z.ltb (fst a) (fst b)) l.
-Fixpoint reshuffle_go (seen : list string) (l : list (string * pseries)) : list pseries :=
+Fixpoint reshuffle_go (seen : list labels) (l : list (labels * pseries)) : list pseries :=
   match l with
   | [] => []
   | (k, s) :: rest =>
-    if existsb (String.eqb k) seen then reshuffle_go seen rest
+    if existsb (labels_eqb k) seen then reshuffle_go seen rest
     else
-      let dups := filter (fun ks => String.eqb (fst ks) k) rest in
+      let dups := filter (fun ks => labels_eqb (fst ks) k) rest in
       {| ps_fp := ps_fp s;
          ps_samples := fold_left (fun acc d => sort_samples (acc ++ ps_samples (snd d))) dups (ps_samples s) |}
       :: reshuffle_go (k :: seen) rest
   end.
 Definition reshuffle (getl : N -> labels) (ss : list pseries) : list pseries :=
-  reshuffle_go [] (map (fun s => (label_str (getl (ps_fp s)), s)) ss).
+  reshuffle_go [] (map (fun s => (getl (ps_fp s), s)) ss).
 
 (* ---------- the final sort.Slice ---------- *)
 Fixpoint labels_less (a b : labels) : bool :=
@@ -151,15 +161,6 @@ Fixpoint run_selects (answer : Z -> Z -> list N -> list fetch_row) (st : qstate)
 
 (* ================= comparison / specification oracles for generated case files ================= *)
 Definition str_eqb := String.eqb.
-Fixpoint list_eqb {A} (eq : A -> A -> bool) (a b : list A) : bool :=
-  match a, b with
-  | [], [] => true
-  | x :: r, y :: r' => eq x y && list_eqb eq r r'
-  | _, _ => false
-  end.
-Definition pair_eqb {A B} (ea : A -> A -> bool) (eb : B -> B -> bool) (x y : A * B) : bool :=
-  ea (fst x) (fst y) && eb (snd x) (snd y).
-Definition labels_eqb : labels -> labels -> bool := list_eqb (pair_eqb String.eqb String.eqb).
 Definition samples_eqb : list sample -> list sample -> bool := list_eqb (pair_eqb Z.eqb Z.eqb).
 Definition sample_lt (a b : sample) : bool := Z.ltb (fst a) (fst b) || (Z.eqb (fst a) (fst b) && Z.ltb (snd a) (snd b)).
 Definition canon_samples (l : list sample) : list sample := isort sample_lt l.
